@@ -4,6 +4,8 @@ package vinstr
 type Config struct {
 	OutDir     string
 	StmtPoints bool
+	// SourceOverride maps an original path under /repo to the file to read instead.
+	SourceOverride map[string]string
 }
 
 func DefaultConfig(out string) Config { return Config{OutDir: out} }
